@@ -561,6 +561,13 @@ func genC19(g *G) {
 			g.Emit("subsession", m, st)
 		}
 	}
+	for n := 1; n <= 2; n++ {
+		for np := 1; np <= 2; np++ {
+			for unk := 1; unk <= 3; unk++ {
+				g.Emit("btcsessionu", g.Pick([]string{"1-4-100", "2-4-7"}), itoa(n), itoa(np), itoa(unk))
+			}
+		}
+	}
 	for n := 1; n <= 3; n++ {
 		for np := 1; np <= 4; np++ {
 			g.Emit("btcsession", g.Pick([]string{"1-4-100", "2-4-7", "retry-1-4"}), itoa(n), itoa(np))
